@@ -139,9 +139,6 @@ func c06Known(c C06Case, observed, out string) string {
 	switch {
 	case (c.Edit == "make-optional" || c.Edit == "make-non-optional") && c.Detail != "" && observed == "error" && strings.Contains(out, "is not backward compatible"):
 		return "C06-optional-of-nonscalar"
-	case c.Class == "compatible" && observed == "warning" && strings.Contains(c.Ctx, "union") && strings.Contains(c.Ctx, "vector") &&
-		strings.Count(out, "⚠") == strings.Count(out, "will result in a read error if its value at runtime is of type"):
-		return "C06-record-in-vector-in-union"
 	}
 	return ""
 }
